@@ -211,7 +211,7 @@ def renamer_tasks(tier):
 REN_TRUST = ['scoping table spec_scope (language reference 4.2, 6.2.4, PEP 572), hand-written', 'recursive calls and callee functions used by contract '
              '(each verified as its own function under contract)', 'CPython symtable conformance of the scoping table is only cross-checked boundedly (rename sweep)']
 
-prop('C03', 'Renaming preserves which binding every name refers to', 'other', lambda tier: renamer_tasks(tier) + [sweep('compile,behaviour', tier, 'C03')],
+prop('C03', 'Renaming preserves which binding every name refers to', 'other', lambda tier: renamer_tasks(tier) + [sweep('compile,behaviour:rename', tier, 'C03')],
      ['C03/', 'C04/NameAssigner', 'C04/util.arg_rename_in_place', 'C09/resolve_names'], replay='props.replay_rename:replay_rename', trusted=REN_TRUST,
      explanation='(a) mapper.add_parent and its helpers: for a symbolic node of every class the namespace passed for every child equals the scoping table '
                  '(enclosing vs own namespace, first comprehension iterable, walrus targets, annotations of every parameter kind). (b) resolve_names.'
@@ -226,7 +226,7 @@ prop('C04', 'Externally visible names are never changed', 'proof', lambda tier: 
                  'parameters; NameBinding.__init__ pins dunder names in every scope; NameBinder.get_binding pins class-body and builtin-shadowing names; '
                  'unresolved names are pinned; permissions are never re-enabled (frame scan of every _allow_rename assignment); NameAssigner renames only '
                  'bindings that allow it and prefixes new module names with "_" exactly when globals are not renamed; minify passes the options through.')
-prop('C06', 'Hoisted literals are bound once, before use, to an identical value', 'proof', lambda tier: renamer_tasks(tier) + [sweep('hoist,behaviour', tier, 'C06')],
+prop('C06', 'Hoisted literals are bound once, before use, to an identical value', 'proof', lambda tier: renamer_tasks(tier) + [sweep('hoist,behaviour:hoist', tier, 'C06')],
      ['C06/'], replay='props.replay_rename:replay_rename', trusted=REN_TRUST + ['dict lookup follows __eq__/__hash__'],
      explanation='Visitor contracts: strings in statement position, f-string text, match patterns and __slots__ assignments are never referenced; literal '
                  'kind decided by type (numbers are not name constants); HoistedValue.__eq__ implies identical type and value; aliases live in function or '
@@ -252,6 +252,60 @@ prop('C17', 'Turning a size optimisation on never makes the output longer', 'oth
                  'lists, should_rename(new) implies that the exact byte change (per-reference deltas + the re-binding statement) is <= 0 (linear integer arithmetic '
                  'over symbolic name lengths); hoisting: should_rename implies alias definition + uses <= literal uses; folding keeps only strictly shorter text. '
                  'The first clause (a corpus of real-world modules) is not expressible as a contract and is not claimed; one open known finding (KF-19).')
+
+
+prop('C11', 'Output depends only on source, options and interpreter version', 'proof',
+     lambda tier: [Task('purity.scan', 'contracts.purity:task_purity'), Task('pipeline.minify', 'contracts.pipeline:task_minify'),
+                   generic_standin('determinism', 'determinism.py', [], '7 programs x 5 option sets: 8 hash seeds in fresh processes, every ordered pair of calls in one '
+                                   'process, re-used argument objects, 6 concurrent threads; byte-identical output and unchanged arguments')],
+     ['C11/'], replay='props.replay_rename:replay_determinism',
+     trusted=['purity corollary: a function that reads only its arguments and interpreter constants, writes only what it allocated and never lets set order reach '
+              'its result is history-, schedule- and hash-seed independent', 'CPython-internal caches are semantically transparent', 'call graph by name'],
+     explanation='Frame analysis of all 401 functions of the package on every run: no global statement, no shared mutable default that is mutated/returned/'
+                 'passed on, no module- or class-level container mutated, no ambient read (environment, clock, random, id, hash outside __hash__), every loop '
+                 'or comprehension over a set-valued expression has an order-insensitive body or consumer; minify() copies the caller\'s preserve lists before '
+                 'extending them (symbolic execution, contracts/pipeline.py). No schedule is executed: thread independence follows from the write frame.')
+prop('C16', 'Shebang, source encoding and line endings are handled faithfully', 'other',
+     lambda tier: [Task('shebang.find', 'contracts.shebang:task_find_shebang'), Task('pipeline.minify', 'contracts.pipeline:task_minify'),
+                   Task('cli.do_minify', 'contracts.cli:task_do_minify'), Task('tokens.stringliteral', 'contracts.tokens:task_method', method='stringliteral'),
+                   Task('tokens.bytesliteral', 'contracts.tokens:task_method', method='bytesliteral'),
+                   generic_standin('encoding sweep', 'encoding_sweep.py', [], '4 programs x 7 encodings/cookies/BOM x 3 line endings x 14 shebang lines x preserve on/off, API on bytes and '
+                                   'text, and the CLI on a subset')],
+     ['C16/', 'C13/do_minify/returns-utf8', 'C02/L3/TokenPrinter.stringliteral', 'C02/L3/TokenPrinter.bytesliteral'], replay='props.replay_rename:replay_encoding',
+     trusted=['decoding of bytes sources (cookie / BOM) happens inside ast.parse (external)', 'regex fragment translation in contracts/shebang.py'],
+     explanation='_find_shebang: with the pattern text of the real source translated to a z3 regular expression, the result is proved to be exactly the first source line '
+                 '(starts with #!, contains no CR or LF, followed by a terminator or the end) or None; minify() re-attaches it exactly when preserve_shebang is True '
+                 '(pipeline contract); string and bytes constants are printed with repr and the CLI encodes the result as UTF-8. Level "other": three open known '
+                 'findings (KF-12 cookie in the shebang line, KF-13 non-UTF-8 shebang bytes, KF-20 BOM before the shebang) and external decoding.')
+
+
+def c01_tasks(tier):
+    ts = [Task('pipeline.composition', 'contracts.pipeline:task_composition')]
+    seen = set(t.name for t in ts)
+    for group in (transform_tasks(tier), folding_tasks(tier), renamer_tasks(tier)):
+        for t in group:
+            if t.name not in seen and not t.name.startswith('standin.'):
+                seen.add(t.name)
+                ts.append(t)
+    from contracts import printer
+    for rec, tag, meth in printer.fuc_list():
+        nm = 'printer.%s.%s[%s]' % (rec, meth, tag)
+        if nm not in seen:
+            seen.add(nm)
+            ts.append(Task(nm, 'contracts.printer:task_visit', receiver=rec, tag=tag, method=meth))
+    ts.append(sweep('compile,behaviour', tier, 'C01'))
+    return ts
+
+
+prop('C01', 'Minified module behaves exactly like the original (safe options)', 'other', c01_tasks,
+     ['C01/', 'C02/L2/', 'C03/', 'C05/', 'C06/', 'C07/'], replay='props.replay_rename:replay_rename',
+     trusted=['adequacy axioms, one per rewrite schema, with explicit side conditions (contracts/pipeline.py:ADEQUACY): NOT proved, there is no formal semantics of Python here',
+              'the stage contracts of C02, C03, C04, C05, C06, C07 (re-run as part of this check)'],
+     explanation='Conditional proof: (1) the syntactic stage contracts of every transform, the renamer, the hoister, the folder and the printer are re-discharged; '
+                 '(2) minify() is proved to run each stage under its own option, in dependency order, on the one parsed module; (3) a z3 lemma composes the stage '
+                 'equivalences for every subset of enabled stages. The semantic adequacy of each rewrite schema is an axiom; two side conditions are not '
+                 'established by the code and are open known findings (KF-14 shadowed object, KF-15 effectful annotation); a third (posargs with **kwargs) was repaired (fix 7a1a7a4). The '
+                 'behaviour oracle of the bounded sweep (run original and minified program) stands behind the axioms.')
 
 
 def run_property(pid, tier):
